@@ -194,9 +194,12 @@ func (c *Context) Add(z, x, y *decimal.Decimal) (r *decimal.Decimal) {
 		}
 		defer func() {
 			if err := recover(); err != nil {
-				if !errors.As(err.(error), &c.err) {
+				// only an ErrNaN is latched; anything else keeps propagating
+				var nan decimal.ErrNaN
+				if e, ok := err.(error); !ok || !errors.As(e, &nan) {
 					panic(err)
 				}
+				c.err = nan
 				r = z
 			}
 		}()
@@ -212,9 +215,12 @@ func (c *Context) Sub(z, x, y *decimal.Decimal) (r *decimal.Decimal) {
 		}
 		defer func() {
 			if err := recover(); err != nil {
-				if !errors.As(err.(error), &c.err) {
+				// only an ErrNaN is latched; anything else keeps propagating
+				var nan decimal.ErrNaN
+				if e, ok := err.(error); !ok || !errors.As(e, &nan) {
 					panic(err)
 				}
+				c.err = nan
 				r = z
 			}
 		}()
@@ -231,9 +237,12 @@ func (c *Context) FMA(z, x, y, u *decimal.Decimal) (r *decimal.Decimal) {
 		}
 		defer func() {
 			if err := recover(); err != nil {
-				if !errors.As(err.(error), &c.err) {
+				// only an ErrNaN is latched; anything else keeps propagating
+				var nan decimal.ErrNaN
+				if e, ok := err.(error); !ok || !errors.As(e, &nan) {
 					panic(err)
 				}
+				c.err = nan
 				r = z
 			}
 		}()
@@ -249,9 +258,12 @@ func (c *Context) Mul(z, x, y *decimal.Decimal) (r *decimal.Decimal) {
 		}
 		defer func() {
 			if err := recover(); err != nil {
-				if !errors.As(err.(error), &c.err) {
+				// only an ErrNaN is latched; anything else keeps propagating
+				var nan decimal.ErrNaN
+				if e, ok := err.(error); !ok || !errors.As(e, &nan) {
 					panic(err)
 				}
+				c.err = nan
 				r = z
 			}
 		}()
@@ -267,9 +279,12 @@ func (c *Context) Quo(z, x, y *decimal.Decimal) (r *decimal.Decimal) {
 		}
 		defer func() {
 			if err := recover(); err != nil {
-				if !errors.As(err.(error), &c.err) {
+				// only an ErrNaN is latched; anything else keeps propagating
+				var nan decimal.ErrNaN
+				if e, ok := err.(error); !ok || !errors.As(e, &nan) {
 					panic(err)
 				}
+				c.err = nan
 				r = z
 			}
 		}()
@@ -308,9 +323,12 @@ func (c *Context) Sqrt(z, x *decimal.Decimal) (r *decimal.Decimal) {
 		}
 		defer func() {
 			if err := recover(); err != nil {
-				if !errors.As(err.(error), &c.err) {
+				// only an ErrNaN is latched; anything else keeps propagating
+				var nan decimal.ErrNaN
+				if e, ok := err.(error); !ok || !errors.As(e, &nan) {
 					panic(err)
 				}
+				c.err = nan
 				r = z
 			}
 		}()
